@@ -135,10 +135,10 @@ static void fastPacket(unsigned long pgn, unsigned prio, unsigned src, unsigned 
 static void tpSession(bool toUs) {
   caseTP = true;
   unsigned src = peer(), dst = toUs ? ourAddr() : 255; unsigned long pgn = R->chance(1, 2) ? 126208UL : (R->chance(1, 2) ? 126996UL : 130816UL + R->below(20));
-  int bytes = R->chance(1, 8) ? (int)R->range(0, 1785) : (R->chance(1, 10) ? (int)R->range(220, 230) : (int)R->range(9, 223)); int pk = (bytes + 6) / 7; if (R->chance(1, 8)) pk = (int)R->below(256);
+  int bytes = R->chance(1, 8) ? (int)R->range(0, 1785) : (R->chance(1, 10) ? (int)R->range(220, 230) : (int)R->range(9, 223)); int pk = (bytes + 6) / 7; if (R->chance(1, 8)) pk = R->chance(1, 3) ? 0 : (int)R->below(256);
   std::vector<unsigned char> cm = {(unsigned char)(dst == 255 ? 32 : 16), (unsigned char)bytes, (unsigned char)(bytes >> 8), (unsigned char)pk, (unsigned char)(R->chance(1, 3) ? 0xff : R->below(8)), (unsigned char)pgn, (unsigned char)(pgn >> 8), (unsigned char)(pgn >> 16)};
   frame(mkId(7, 60416UL, src, dst), dlc(), cm);
-  int n = R->chance(1, 5) ? (int)R->below(40) : pk;
+  int n = R->chance(1, 5) ? (int)R->below(40) : (pk == 0 ? (int)R->range(1, 3) : pk);
   for (int k = 1; k <= n; k++) {
     if (R->chance(1, 15)) { exec("t " + std::to_string(R->range(0, 1300))); }
     if (R->chance(1, 12) || (k == n && R->chance(1, 3))) {   // lose our address in the middle (or just before the last packet) of the session: a competing claim with a tiny NAME
@@ -181,6 +181,22 @@ static void gfConfCommand() {
     bool ucs = R->chance(1, 2);
     if (ucs) { pl.push_back((unsigned char)(2 + 2 * cs.size())); pl.push_back(0); for (unsigned c : cs) { pl.push_back((unsigned char)c); pl.push_back((unsigned char)(c >> 8)); } }
     else { pl.push_back((unsigned char)(2 + cs.size())); pl.push_back(1); for (unsigned c : cs) pl.push_back((unsigned char)(c & 0x7f ? c & 0x7f : 'x')); }
+  }
+  if (pl.size() > 223) pl.resize(223);
+  fastPacket(126208UL, 3, peer(), N->src((int)R->below(nDev)), pl);
+}
+
+// group-function Request for PGN 126998 whose parameter pairs carry var-strings to be matched against the node's configuration
+// information (field 1..3, string lengths up to and beyond the 70-character fields)
+static void gfConfRequest() {
+  std::vector<unsigned char> pl = {0, (unsigned char)(126998UL & 0xff), (unsigned char)((126998UL >> 8) & 0xff), (unsigned char)(126998UL >> 16), 0xff, 0xff, 0xff, 0xff, 0xff, 0xff};
+  int pairs = (int)R->range(1, 3); pl.push_back((unsigned char)pairs);
+  for (int q = 0; q < pairs; q++) {
+    pl.push_back((unsigned char)(R->chance(1, 8) ? R->below(6) : q + 1));
+    int n = R->chance(1, 3) ? (int)R->range(0, 20) : (R->chance(1, 2) ? (int)R->range(28, 40) : (int)R->range(55, 90));
+    bool match = R->chance(1, 3); const char *own[] = {"Manufacturer info", "Install 1", "Install 2"};
+    std::string txt = match ? own[q % 3] : std::string(); while (!match && (int)txt.size() < n) txt.push_back((char)R->range(32, 126));
+    pl.push_back((unsigned char)(2 + txt.size())); pl.push_back(1); for (char c : txt) pl.push_back((unsigned char)c);
   }
   if (pl.size() > 223) pl.resize(223);
   fastPacket(126208UL, 3, peer(), N->src((int)R->below(nDev)), pl);
@@ -285,7 +301,8 @@ static void oneCase() {
     if (k < 18) tpSession(R->chance(3, 4));
     else if (k < 26) tpControl();
     else if (k < 38) groupFunction();
-    else if (k < 42) gfConfCommand();
+    else if (k < 41) gfConfCommand();
+    else if (k < 43) gfConfRequest();
     else if (k < 52) deviceInfoTraffic();
     else if (k < 60) deviceListScenario();
     else if (k < 74) isoStuff();
